@@ -167,10 +167,11 @@ theorem C14_pinned_deduce_tie_k_nan :
     Float32.isNaN (Pinned.deduceKNoTie tieX tieC0 tieC1 tieAy).1 = true := by
   decide +kernel
 
-/-- C14 (repaired model, binary32): the same operands take the tie arm, `k = 0`, and the result `(bI, dI, uI; ay)` is accepted. -/
+/-- C14 (repaired model, binary32): on the same operands `k = 0` (tie arm of repair 4d5bbb1; since repair b163717 the
+    disbelief bound `kb = (1-a) u (d1-d0)/(1-ay) = 0` is the smaller one), and the result `(bI, dI, uI; ay)` is accepted. -/
 theorem C14_repaired_deduce_tie_ok :
     (match BOp.deduce tieX tieC0 tieC1 tieAy with
-      | (.ok r, .Tie) => decide (r.d == 0.0) && decide (r.a == tieAy) | _ => false) = true
+      | (.ok r, .IIB) => decide (r.d == 0.0) && decide (r.a == tieAy) | _ => false) = true
     ∧ (BOp.deduceK tieX tieC0 tieC1 tieAy).1 = (0.0 : Float32) := by
   decide +kernel
 
@@ -183,11 +184,144 @@ theorem C14_pinned_boundary_a0_rejected :
       | (.error _, .IIA2) => true | _ => false) = true := by
   decide +kernel
 
-/-- C14 (repaired model): the same boundary input takes the tie arm and is accepted. -/
+/-- C14 (repaired model): the same boundary input is accepted (tie arm of 4d5bbb1; both bounds are 0 since b163717). -/
 theorem C14_repaired_boundary_a0_accepted :
     (match BOp.deduce (⟨q 1 2, q 1 4, q 1 4, q 0 1⟩ : BOp (XQ .f64)) (q 1 2, q 1 4, q 1 4)
         (q 1 4, q 1 4, q 1 2) (q 1 2) with
-      | (.ok _, .Tie) => true | _ => false) = true := by
+      | (.ok _, .IIA) => true | _ => false) = true := by
+  decide +kernel
+
+/-! ### C14: plain decimal operands, binary64 (before / after repair b163717) -/
+
+/-- 0.1 (binary64) -/
+def dec01 : Float := fb 0x3fb999999999999a
+
+/-- C14 / C19 (after repair 4d5bbb1, before repair b163717, binary64): x = (0, 0, 1; a = 0.1) vacuous, y|x = (1, 0, 0),
+    y|¬x = (0.5, 0.5, 0), ay = 0.1 -- a Case II input with exact result (0.5, 0, 0.5; 0.1): `pyx` and `r` are both 0.55
+    in exact arithmetic (`ka = kb = 1`).  The nine-branch operator takes a rounding-decided sub-case (II.A.1) whose closed
+    form `a u (bI - b1)/(P ay)` comes out slightly above 1, `d = dI - (1-ay) k = -2.8e-16`, and the constructor rejects the
+    disbelief (the Rust `new` panics) on exactly well-formed operands. -/
+theorem C14_pinned_deduce_decimal_panics :
+    (match Pinned.deduceNineBranch (⟨0.0, 0.0, 1.0, dec01⟩ : BOp Float) (1.0, 0.0, 0.0) (0.5, 0.5, 0.0) dec01 with
+      | (r, .IIA1) => isErr r .dd | _ => false) = true := by
+  decide +kernel
+
+/-- … the rejected disbelief is `-2^-52 - 2^-54` (bits 0xbcb4000000000000, as recorded by the harness hook in
+    /verif/pinned/C14_deduce_decimal_pinned_harness_output.txt) -/
+theorem C14_pinned_deduce_decimal_residue :
+    (let k := (Pinned.deduceKNineBranch (⟨0.0, 0.0, 1.0, dec01⟩ : BOp Float) (1.0, 0.0, 0.0) (0.5, 0.5, 0.0) dec01).1
+     let di : Float := 0.0 * 0.0 + 0.0 * 0.5 + 1.0 * (0.0 * dec01 + 0.5 * (1.0 - dec01))
+     decide (di - (1.0 - dec01) * k == fb 0xbcb4000000000000)) = true := by
+  decide +kernel
+
+/-- C14 (repaired model, binary64): the same operands are accepted; `ka = 0.1·1·0.5/0.1`, `kb = 0.9·1·0.5/0.9`, no
+    cancellation, no rounding-decided branch: the result is (0.5, 0, 0.5; 0.1) up to an ulp. -/
+theorem C14_repaired_deduce_decimal_ok :
+    (match BOp.deduce (⟨0.0, 0.0, 1.0, dec01⟩ : BOp Float) (1.0, 0.0, 0.0) (0.5, 0.5, 0.0) dec01 with
+      | (.ok r, _) => decide (0.0 ≤ r.d) && decide (r.d ≤ feps) && decide (r.a == dec01) | _ => false) = true := by
+  decide +kernel
+
+/-- C14 (nine-branch operator, EXACT arithmetic, boundary `P = 0` of the antecedent -- outside the open domain of the
+    property): x = (0, 1/2, 1/2; 0), y|x = (1/2, 1/4, 1/4), y|¬x = (1/4, 1/2, 1/4), ay = 1/2 (no tie) reaches II.A.1, whose
+    divisor is `P·ay = 0` under a zero numerator: 0/0, rejected although every operand is well-formed.  The current
+    operator accepts it (`SLV.Props.C14.C14_boundary_P0_accepted`). -/
+theorem C14_pinned_boundary_P0_rejected :
+    (match Pinned.deduceNineBranch (⟨q 0 1, q 1 2, q 1 2, q 0 1⟩ : BOp (XQ .f64)) (q 1 2, q 1 4, q 1 4)
+        (q 1 4, q 1 2, q 1 4) (q 1 2) with
+      | (.error _, .IIA1) => true | _ => false) = true := by
+  decide +kernel
+
+/-! ### C19: a fold of cumulative fusions on dyadic operands, binary64 (before / after repair df72a91) -/
+
+/-- x = (0, 3/8, 5/8; 1/2) -/
+def chX : BOp Float := ⟨0.0, 0.375, 0.625, 0.5⟩
+/-- z = (3/4, 1/8, 1/8; 1/2) -/
+def chZ : BOp Float := ⟨0.75, 0.125, 0.125, 0.5⟩
+/-- s = (0, 1/8, 7/8; 1/2) -/
+def chS : BOp Float := ⟨0.0, 0.125, 0.875, 0.5⟩
+
+/-- C19 (before repair df72a91, binary64): three cumulative fusions in a row, `((x ⊕ x) ⊕ z) ⊕ s`, on dyadic,
+    non-dogmatic operands.  Every intermediate result is accepted with `b + d + u` an ulp or so away from 1; the deviation
+    is carried into the next call un-normalised, amplified, and the third call rejects its own result (label `b+d+u`),
+    although the exact result is well-formed (`SLV.Props.C19.C19_cfuse_exact_ok`, three times). -/
+theorem C19_pinned_cfuse_chain_rejected :
+    isErr (Pinned.cfuseUnnorm chX chX >>= (Pinned.cfuseUnnorm · chZ) >>= (Pinned.cfuseUnnorm · chS)) .bdu = true := by
+  decide +kernel
+
+/-- … the first two steps are accepted -/
+theorem C19_pinned_cfuse_chain_prefix_ok :
+    (match Pinned.cfuseUnnorm chX chX >>= (Pinned.cfuseUnnorm · chZ) with
+      | .ok _ => true | .error _ => false) = true := by
+  decide +kernel
+
+/-- C19 (repaired model, binary64): with the renormalisation the same fold is accepted. -/
+theorem C19_repaired_cfuse_chain_ok :
+    (match BOp.cfuse chX chX >>= (BOp.cfuse · chZ) >>= (BOp.cfuse · chS) with
+      | .ok _ => true | .error _ => false) = true := by
+  decide +kernel
+
+/-! ### C12 / C14 / C19: `mul`, `comul`, `deduce` on plain decimal operands, binary64 (before / after repair d46c983) -/
+
+/-- x = (0, 0.95, 0.05; a = 0.55), the doubles nearest to the decimal literals; `0 + 0.95 + 0.05 = 1` exactly in binary64 -/
+def dcX : BOp Float := ⟨fb 0x0, fb 0x3fee666666666666, fb 0x3fa999999999999a, fb 0x3fe199999999999a⟩
+/-- y = (0, 0.01, 0.99; a = 0.01) -/
+def dcY : BOp Float := ⟨fb 0x0, fb 0x3f847ae147ae147b, fb 0x3fefae147ae147ae, fb 0x3f847ae147ae147b⟩
+/-- x = (0.99998, 0, 2e-5; a = 0.57) -/
+def dmX : BOp Float := ⟨fb 0x3fefffd60e94ee39, fb 0x0, fb 0x3ef4f8b588e368f1, fb 0x3fe23d70a3d70a3d⟩
+/-- y = (2e-5, 0, 0.99998; a = 0.31) -/
+def dmY : BOp Float := ⟨fb 0x3ef4f8b588e368f1, fb 0x0, fb 0x3fefffd60e94ee39, fb 0x3fd3d70a3d70a3d7⟩
+
+/-- the four operands are exactly well-formed in binary64: the constructor accepts them and `b + d + u == 1.0` -/
+theorem C12_pinned_decimal_operands_wf :
+    ([dcX, dcY, dmX, dmY].all fun w =>
+      (match BOp.tryNew w.b w.d w.u w.a with | .ok _ => true | .error _ => false) && decide (w.b + w.d + w.u == 1.0))
+      = true := by
+  decide +kernel
+
+/-- C12 (before repair d46c983, binary64): `comul` of two plain decimal, exactly well-formed operands panics
+    (`b + d + u = 1 is not satisfied`): the three masses come from independent formulas, 7-8 roundings on the dominating
+    one, and their float sum is `1 - 5·2^-53` where the self-check accepts `1 - 2ε`.  The exact result is well-formed
+    (`SLV.Props.C12.C12_comul_ok`). -/
+theorem C12_pinned_comul_decimal_panics :
+    isErr (Pinned.comulUnnorm dcX dcY) .bdu = true := by
+  decide +kernel
+
+/-- C12 (before repair d46c983, binary64): `mul` of two plain decimal, exactly well-formed operands panics likewise. -/
+theorem C12_pinned_mul_decimal_panics :
+    isErr (Pinned.mulUnnorm dmX dmY) .bdu = true := by
+  decide +kernel
+
+/-- C12 (repaired model, binary64): with the renormalisation both calls are accepted, and the result adds up to exactly 1. -/
+theorem C12_repaired_comul_decimal_ok :
+    (match BOp.comul dcX dcY with
+      | .ok r => decide (r.b + r.d + r.u == 1.0) | .error _ => false) = true := by
+  decide +kernel
+
+theorem C12_repaired_mul_decimal_ok :
+    (match BOp.mul dmX dmY with
+      | .ok r => decide (r.b + r.d + r.u == 1.0) | .error _ => false) = true := by
+  decide +kernel
+
+/-- antecedent, conditionals and consequent base rate of the second case of pinned/C19_bdeduce_residue.json (arbitrary
+    binary64 operands inside the tolerance of the constructors: their sums are 1 - ε, 1 - ε, 1 - ε/2; Case III) -/
+def drX : BOp Float := ⟨fb 0x3fe77527cdc793e8, fb 0x3fd01a47ecba9f8b, fb 0x3f8f6d0ef6c71413, fb 0x3fd3dda2bf6f9d8a⟩
+def drC0 : Float × Float × Float := (fb 0x3fca7af25479d746, fb 0x3fe729b2e4754199, fb 0x3fb1bc84336244a2)
+def drC1 : Float × Float × Float := (fb 0x3fd8db0e777822e2, fb 0x3fe39115c1a45519, fb 0x3f263029f9975502)
+def drAy : Float := fb 0x3f9d9c8da0e116a4
+
+/-- C14 / C19 (before repair d46c983, binary64): `deduce` on operands accepted by the constructors panics by the same
+    residue: the float sum of the three masses is `1 - 5·2^-53` (about once per million random calls; this was the finding
+    `C19 op=bdeduce`; no exactly well-formed operand tuple with this outcome is known: 0 in 9 million decimal / random
+    tuples).  In exact arithmetic the two operators agree on well-formed operands (`SLV.Props.C14.C14_eq_unnormalised`). -/
+theorem C14_pinned_deduce_unnorm_rejected :
+    ((match BOp.tryNew drX.b drX.d drX.u drX.a with | .ok _ => true | .error _ => false)
+      && isErr (Pinned.deduceUnnorm drX drC0 drC1 drAy).1 .bdu) = true := by
+  decide +kernel
+
+/-- C14 / C19 (repaired model, binary64): the same call is accepted. -/
+theorem C14_repaired_deduce_unnorm_ok :
+    (match (BOp.deduce drX drC0 drC1 drAy).1 with
+      | .ok _ => true | .error _ => false) = true := by
   decide +kernel
 
 /-! ### C11: the property's own example, binary64 -/
@@ -209,6 +343,191 @@ theorem C11_pinned_impossible_cell_certain :
 theorem C11_repaired_impossible_cell_vacuous :
     (match mergeCond2 false exYX exYZ exAX exAZ exAY with
       | .ok t => decide ((t[1]).u == 1.0) | .error _ => false) = true := by
+  decide +kernel
+
+/-! ### C09: `uncertainty_maximized` under a base rate whose float sum is 1 + 3ε (accepted by the constructors);
+    before repair f029db5 the result was not renormalised -/
+
+/-- the vacuous simplex over two values -/
+def vac2 : Simplex Float 2 := ⟨#v[0.0, 0.0], 1.0⟩
+/-- a = [0.5, 0.5 + 3ε]: both entries and their sum 1 + 3ε are exactly representable -/
+def aSum3 : Tab Float 2 := #v[0.5, 0.5 + 3.0 * feps]
+
+/-- the operand (vacuous simplex, base rate summing to 1 + 3ε) is accepted by `Opinion::try_new` -/
+theorem C09_pinned_operand_accepted :
+    (match Opinion.tryNew vac2.b vac2.u aSum3 with | .ok _ => true | .error _ => false) = true := by
+  decide +kernel
+
+/-- C09 (before f029db5, binary64): the "maximised" vacuous simplex has u' = 1 - 3ε and zero masses, so
+    Σb' + u' = 1 - 3ε misses the `is_one` test (1 - 2ε is the lower end of the band) and `Simplex::try_new` rejects
+    the result with the sum error; it is not even vacuous any more. -/
+theorem C09_pinned_maximized_sum_rejected :
+    (let w := Pinned.uncertaintyMaximizedUnnorm vac2 aSum3
+     decide (w.u == 1.0 - 3.0 * feps) && decide (w.b[0] == 0.0) && decide (w.b[1] == 0.0)
+       && !(Scalar.isOne (Scalar.add (Tab.sumIter w.b) w.u)) && !w.isVacuous
+       && isErr (Simplex.tryNew w.b w.u) .sumBU) = true := by
+  decide +kernel
+
+/-- C09 (repaired model, binary64): the same input gives back the vacuous simplex (u' = 1, zero masses), accepted. -/
+theorem C09_repaired_maximized_sum_ok :
+    (let w := Simplex.uncertaintyMaximized vac2 aSum3
+     decide (w.u == 1.0) && decide (w.b[0] == 0.0) && decide (w.b[1] == 0.0)
+       && Scalar.isOne (Scalar.add (Tab.sumIter w.b) w.u) && w.isVacuous
+       && (match Simplex.tryNew w.b w.u with | .ok _ => true | .error _ => false)) = true := by
+  decide +kernel
+
+/-- the same input at the exact semantics: before the repair the total was 1/(1+3ε), not 1
+    (`C09_maximized_sums_to_one` in SLV/Props/C09.lean was false for the old definition) … -/
+theorem C09_pinned_maximized_total_exact :
+    (let w := Pinned.uncertaintyMaximizedUnnorm (⟨#v[q 0 1, q 0 1], q 1 1⟩ : Simplex (XQ .f64) 2)
+        #v[q 1 2, .fin (1 / 2 + 3 * Fmt.eps .f64)]
+     decide (Scalar.add (Tab.sumIter w.b) w.u = .fin (1 / (1 + 3 * Fmt.eps .f64)))
+       && !decide (Scalar.add (Tab.sumIter w.b) w.u = .fin 1)) = true := by
+  decide +kernel
+
+/-- … and is exactly 1 now -/
+theorem C09_repaired_maximized_total_exact :
+    (let w := Simplex.uncertaintyMaximized (⟨#v[q 0 1, q 0 1], q 1 1⟩ : Simplex (XQ .f64) 2)
+        #v[q 1 2, .fin (1 / 2 + 3 * Fmt.eps .f64)]
+     decide (Scalar.add (Tab.sumIter w.b) w.u = .fin 1)) = true := by
+  decide +kernel
+
+/-! ### C06 / C15 / C16: products on a cell of small joint base rate (before / after repair abca806) -/
+
+/-- binary32, exactly well-formed dyadic operands: `w0 = ([7/8, 1/8 - 2^-12], u = 2^-12, a = [2^-13, 1 - 2^-13])`, -/
+def cw0 : Opinion Float32 2 :=
+  ⟨#v[fb32 0x3f600000, fb32 0x3dff8000], fb32 0x39800000, #v[fb32 0x39000000, fb32 0x3f7ff800]⟩
+/-- `w1 = ([1/2, 1/2], u = 0, a = [1/2, 1/2])` (dogmatic, uniform) -/
+def cw1 : Opinion Float32 2 :=
+  ⟨#v[fb32 0x3f000000, fb32 0x3f000000], fb32 0x00000000, #v[fb32 0x3f000000, fb32 0x3f000000]⟩
+
+/-- the same operands as rationals -/
+def cq0 : Opinion (XQ .f32) 2 :=
+  ⟨#v[.fin (7 / 8), .fin (1 / 8 - 1 / 4096)], .fin (1 / 4096), #v[.fin (1 / 8192), .fin (1 - 1 / 8192)]⟩
+def cq1 : Opinion (XQ .f32) 2 := ⟨#v[.fin (1 / 2), .fin (1 / 2)], .fin 0, #v[.fin (1 / 2), .fin (1 / 2)]⟩
+
+/-- the operands' masses and base rates sum to exactly 1 in binary32 (no rounding in these sums), and the checked
+    constructor accepts both -/
+theorem C06_cancel_operands_exactly_wf :
+    (decide (cw0.b[0] + cw0.b[1] + cw0.u = 1.0) && decide (cw0.a[0] + cw0.a[1] = 1.0)
+      && decide (cw1.b[0] + cw1.b[1] + cw1.u = 1.0) && decide (cw1.a[0] + cw1.a[1] = 1.0)
+      && (match Opinion.tryNew cw0.b cw0.u cw0.a, Opinion.tryNew cw1.b cw1.u cw1.a with
+          | .ok _, .ok _ => true | _, _ => false)) = true := by
+  decide +kernel
+
+/-- at the exact semantics the joint (maximal) uncertainty of the product is `2^-12`, for the cancelling form of
+    the code before repair abca806 and for the expanded form alike -/
+theorem C06_product_uncertainty_exact :
+    (Pinned.product2RawCancel cq0 cq1).u = .fin (1 / 4096) ∧ (product2Raw cq0 cq1).u = .fin (1 / 4096) := by
+  decide +kernel
+
+/-- C06 (after repair 06db2ad, before repair abca806, binary32): the product (either family; the labelled one returns
+    this `u` unchecked, the unlabelled one accepts it: the result is a well-formed but NOT uncertainty-maximal
+    opinion) loses the whole uncertainty, `u = 0` where the exact value is `2^-12`: on the cells of base rate
+    `2^-13 * 1/2` the difference `P0*P1 - b0*b1` of two rounded products of order 0.44 is exactly 0. -/
+theorem C06_pinned_product_uncertainty_lost :
+    (Pinned.product2RawCancel cw0 cw1).u = (0.0 : Float32) := by
+  decide +kernel
+
+/-- C06 (repaired model, binary32): the same operands give `u` within 4 ulps of `2^-12` (in fact exactly `2^-12`) -/
+theorem C06_repaired_product_uncertainty :
+    (let u := (product2Raw cw0 cw1).u
+     decide (u ≥ fb32 0x397ffffc) && decide (u ≤ fb32 0x39800002) && decide (u = fb32 0x39800000)) = true := by
+  decide +kernel
+
+/-- uniform dogmatic factor -/
+def dg0 : Opinion (XQ .f64) 2 := ⟨#v[q 1 2, q 1 2], q 0 1, #v[q 1 2, q 1 2]⟩
+
+/-- C06 (before repair abca806, exact semantics): for the dogmatic operands `dg0` and `pw1` (masses summing to
+    `1 + ε/2`, accepted by the checked constructor, all base rates 1/2) the candidates `(P0*P1 - b0*b1)/(a0*a1)` of the
+    NORMALISED projections are negative, `u = -(1+ε)ε/(2+ε) < 0`; the expanded candidates of the repaired code are sums
+    of products of non-negative numbers (`C06_uncertainty_nonneg_gen` in SLV/Props/C06.lean), here `u = 0` -/
+theorem C06_pinned_product_negative_exact :
+    (match (Pinned.product2RawCancel dg0 pw1).u with | .fin x => decide (x < 0) | _ => false) = true
+    ∧ (product2Raw dg0 pw1).u = .fin 0 := by
+  decide +kernel
+
+/-- binary32, well-formed within the constructors' tolerance (accepted by `Opinion::try_new`):
+    `w0 = (b, u = 2^-12 (1 + 2^-5), a)` on three values with `a[0] = 2^-13`, whose projection sums to 1 + 1 ulp -/
+def dw0 : Opinion Float32 3 :=
+  ⟨#v[fb32 0x3f44eeea, fb32 0x3e02c788, fb32 0x3dd275a0], fb32 0x39840000,
+    #v[fb32 0x39000000, fb32 0x3f484440, fb32 0x3e5ecf00]⟩
+/-- `w1 = ([1/2, 1/2], u = 0, a = [2^-8, 1 - 2^-8])` -/
+def dw1 : Opinion Float32 2 :=
+  ⟨#v[fb32 0x3f000000, fb32 0x3f000000], fb32 0x00000000, #v[fb32 0x3b800000, fb32 0x3f7f0000]⟩
+
+/-- C06 / C19 (before repair abca806, binary32): both operands are accepted by the checked constructor, the
+    product's "uncertainty" is `-1/16`: the labelled product returns an ill-formed opinion silently, the unlabelled
+    one (`Opinion::new`) panics -/
+theorem C06_pinned_product_negative_uncertainty :
+    ((match Opinion.tryNew dw0.b dw0.u dw0.a, Opinion.tryNew dw1.b dw1.u dw1.a with
+        | .ok _, .ok _ => true | _, _ => false)
+      && decide ((Pinned.product2RawCancel dw0 dw1).u = fb32 0xbd800000)
+      && (let r := Pinned.product2RawCancel dw0 dw1; isErr (Opinion.tryNew r.b r.u r.a) .u)) = true := by
+  decide +kernel
+
+/-- C06 / C19 (repaired model, binary32): the same operands give a small positive uncertainty
+    (`u0 * (1/2) / (1 - 2^-8)` ≈ 1.264e-4) and the validating product accepts its result -/
+theorem C06_repaired_product_nonneg_uncertainty :
+    (decide ((product2Raw dw0 dw1).u ≥ fb32 0x39040000) && decide ((product2Raw dw0 dw1).u ≤ fb32 0x39050000)
+      && (match product2U dw0 dw1 with | .ok _ => true | .error _ => false)) = true := by
+  decide +kernel
+
+/-! ### C07 / C02 / C03: the per-entry shortcut of `compute_base_rate` (before / after repairs c0b2ed5 + c8a7116) -/
+
+/-- binary32: `l = ([2^-19, 0.99992275], u = 2^-14·1.234375, a = [2^-19, 1 - 2^-19])`,
+    `r = ([2^-20·1.5, 0.87621856], u = 0.12378001, a = [2^-19·1.0625, 1 - 2^-19·1.0625])`: the first base-rate entries
+    differ by 6.25 % but by less than ε = 2^-23 absolutely, so `ulps_eq!` held for them -/
+def cmL : Opinion Float32 2 :=
+  ⟨#v[fb32 0x36000000, fb32 0x3f7ffaf0], fb32 0x389e0000, #v[fb32 0x36000000, fb32 0x3f7fffe0]⟩
+def cmR : Opinion Float32 2 :=
+  ⟨#v[fb32 0x35c00000, fb32 0x3f604fdc], fb32 0x3dfd8060, #v[fb32 0x36080000, fb32 0x3f7fffde]⟩
+
+/-- the operands are exactly well-formed in binary32 and accepted by the checked constructor -/
+theorem C07_pinned_operands_accepted :
+    (decide (cmL.b[0] + cmL.b[1] + cmL.u = 1.0) && decide (cmL.a[0] + cmL.a[1] = 1.0)
+      && decide (cmR.b[0] + cmR.b[1] + cmR.u = 1.0) && decide (cmR.a[0] + cmR.a[1] = 1.0)
+      && (match Opinion.tryNew cmL.b cmL.u cmL.a, Opinion.tryNew cmR.b cmR.u cmR.a with
+          | .ok _, .ok _ => true | _, _ => false)) = true := by
+  decide +kernel
+
+/-- C07 (before repairs c0b2ed5 / c8a7116, binary32): the fused base rate is the LEFT operand's wherever the entries
+    are `ulps_eq!`: the two orders of ONE operand pair give different base rates (every operator; shown for ECm's), and
+    epistemic cumulative fusion, which divides by the base rate when it maximises the uncertainty, turns the
+    difference into u = 0.999999 vs u = 0.941180 -/
+theorem C07_pinned_base_rate_not_commutative :
+    (let a := Pinned.computeBaseRateLeft .ecm false cmL cmR
+     let a' := Pinned.computeBaseRateLeft .ecm false cmR cmL
+     decide (a[0] = fb32 0x36000000) && decide (a[1] = fb32 0x3f7fffe0)
+       && decide (a'[0] = fb32 0x36080000) && decide (a'[1] = fb32 0x3f7fffde)
+       && decide ((Pinned.fuseLeft .ecm false cmL cmR).u = fb32 0x3f7fffe7)
+       && decide ((Pinned.fuseLeft .ecm false cmR cmL).u = fb32 0x3f70f124)
+       && decide ((Pinned.fuseLeft .ecm false cmL cmR).u > 0.99999)
+       && decide ((Pinned.fuseLeft .ecm false cmR cmL).u < 0.94119)) = true := by
+  decide +kernel
+
+/-- … and for the other three operators the two orders differ in the base rate (only) -/
+theorem C07_pinned_base_rate_not_commutative_others :
+    (decide ((Pinned.computeBaseRateLeft .acm false cmL cmR)[0] ≠ (Pinned.computeBaseRateLeft .acm false cmR cmL)[0])
+      && decide ((Pinned.computeBaseRateLeft .avg false cmL cmR)[0] ≠ (Pinned.computeBaseRateLeft .avg false cmR cmL)[0])
+      && decide ((Pinned.computeBaseRateLeft .wgh false cmL cmR)[0] ≠ (Pinned.computeBaseRateLeft .wgh false cmR cmL)[0])
+      && decide ((Pinned.fuseLeft .acm false cmL cmR).u = (Pinned.fuseLeft .acm false cmR cmL).u)) = true := by
+  decide +kernel
+
+/-- C07 (repaired model, binary32): the weighted value in both orders, bit for bit, for all four operators; ECm's
+    two orders agree in every component (u = 0.999965) -/
+theorem C07_repaired_base_rate_commutative :
+    (let a := computeBaseRate .ecm false cmL cmR
+     let a' := computeBaseRate .ecm false cmR cmL
+     let w := fuse .ecm false cmL cmR
+     let w' := fuse .ecm false cmR cmL
+     decide (a[0] = fb32 0x36000118) && decide (a[1] = fb32 0x3f7fffe0)
+       && decide (a'[0] = a[0]) && decide (a'[1] = a[1])
+       && decide (w.u = fb32 0x3f7ffdb7) && decide (w'.u = w.u)
+       && decide (w'.b[0] = w.b[0]) && decide (w'.b[1] = w.b[1]) && decide (w'.a[0] = w.a[0]) && decide (w'.a[1] = w.a[1])
+       && decide (computeBaseRate .acm false cmL cmR = computeBaseRate .acm false cmR cmL)
+       && decide (computeBaseRate .avg false cmL cmR = computeBaseRate .avg false cmR cmL)
+       && decide (computeBaseRate .wgh false cmL cmR = computeBaseRate .wgh false cmR cmL)) = true := by
   decide +kernel
 
 end SLV.Props.Pinned
